@@ -117,6 +117,11 @@ def sizing_sync(ctx, corr_s, corr_f, tr, ix, corr_p=None):
             if oid not in pb:
                 continue
             p = pb[oid]
+            if "closable_indep" in p:
+                if p["closable_indep"] != p["closable"]:
+                    ctx.witness("C15.3", {"kind": "closable_miscounted"}, "%s%r at %s: the position reports closable %s; holding %s minus the unfilled part of the resting sales minus today's T+1 purchases is %s"
+                                % (api, args, c["when"], p["closable"], p["qty"], p["closable_indep"]), rp)
+                p = dict(p, closable=p["closable_indep"])
             auto = bool(tr.cfg["accounts_mod"].get("auto_switch_order_value"))
             ksh = int(s["board"] == "KSH")
             lot = 1 if ksh else int(s["lot"])
@@ -134,6 +139,10 @@ def sizing_sync(ctx, corr_s, corr_f, tr, ix, corr_p=None):
                 # share-based APIs with auto_switch_order_value: an unaffordable BUY becomes "all remaining cash"
                 amt = args[1] * (1 if ksh else lot) if api == "order_lots" else (args[1] - p["qty"] if api == "order_to" else args[1])
                 line = "SZSHARESAUTO %d %d %s %d %d %s %s %s" % (ksh, lot, f2b(amt), p["qty"], p["closable"], f2b(price), f2b(cash), cv)
+                # with the switch on a purchase is cut down to what the available cash pays for BEFORE it is created: the cash validator never has to refuse it
+                if amt > 0 and any(v.get("validator") == "cash" and v.get("veto") for v in tr.rec.validations[lo:hi]):
+                    ctx.witness("C15.2", {"kind": "auto_switch_left_unaffordable_order", "api": api}, "%s%r with auto_switch_order_value at %s (available cash %r, reserved %r): the order that was created was refused by the cash validator"
+                                % (api, args, c["when"], cash, acc.get("frozen")), rp)
                 if amt > 0 and created and not created[0]["is_buy"]:
                     ctx.witness("C15.1", {"kind": "buy_request_creates_sell", "api": api, "auto_switch": True}, "%s%r with auto_switch_order_value and available cash %r created a SELL order for %s shares"
                                 % (api, args, cash, created[0]["qty"]), rp)
@@ -420,7 +429,7 @@ def run(ctx):
     direct(ctx, corr_r, corr_d)
     corr_p = ctx.corr("order_target_portfolio", "created orders (entry, side, quantity, limit) of every call whose target covers all holdings vs model `orderTargetPortfolio` on the same value, cash, holdings, prices, styles")
     tstream.stream(ctx, ctx.n(80, 3000), None, [], extra_sync=lambda c, tr, ix: sizing_sync(c, corr_s, corr_f, tr, ix, corr_p),
-                   market_opts=lambda k: {"opts": {"p_split": 0.8 if k % 2 else 0.3, "p_delist": 0.1}}, cfg_opts=lambda k: {"p_auto_switch": 0.35, "frac_fut": True, "otp": True})
+                   market_opts=lambda k: {"opts": {"p_split": 0.8 if k % 2 else 0.3, "p_delist": 0.1}}, cfg_opts=lambda k: {"p_auto_switch": 0.35, "frac_fut": True, "otp": True, "c15_plans": True})
 
 
 def replay(ctx, data):
